@@ -14,6 +14,10 @@ type SplitMix64 struct{ s uint64 }
 
 func NewSplitMix(seed uint64) *SplitMix64 { return &SplitMix64{s: seed} }
 
+// Next is marked norace because the chaos scheduler calls it from whichever
+// task holds the baton (see sched.RunInvisible).
+//
+//go:norace
 func (r *SplitMix64) Next() uint64 {
 	r.s += 0x9e3779b97f4a7c15
 	z := r.s
